@@ -290,7 +290,15 @@ func init() {
 		}
 		var cases []ec
 		deflt, numberRet, numberParse, loopHdr, numberParams := "<missing>", "<missing>", "<missing>", "<missing>", "<missing>"
+		var guards []string
 		if fd := c12FindFunc(pkgs["syntax"], "", "parseArraiStringFragment"); fd != nil {
+			// every `if` of the function, in source order: the bounds / error guards
+			ast.Inspect(fd.Body, func(n ast.Node) bool {
+				if is, ok := n.(*ast.IfStmt); ok {
+					guards = append(guards, c12Norm(src(is.Cond)))
+				}
+				return true
+			})
 			ast.Inspect(fd.Body, func(n ast.Node) bool {
 				switch n := n.(type) {
 				case *ast.AssignStmt:
@@ -299,11 +307,14 @@ func init() {
 						if id, ok := n.Lhs[0].(*ast.Ident); ok && id.Name == "number" {
 							if fl, ok := n.Rhs[0].(*ast.FuncLit); ok {
 								numberParams = c12Norm(src(fl.Type))
+								var rets []string
 								ast.Inspect(fl.Body, func(m ast.Node) bool {
 									switch m := m.(type) {
 									case *ast.ReturnStmt:
-										if len(m.Results) == 1 {
-											numberRet = c12Norm(src(m.Results[0]))
+										// the index handed back to the loop (first result), every return in source order
+										if len(m.Results) >= 1 {
+											rets = append(rets, c12Norm(src(m.Results[0])))
+											numberRet = strings.Join(rets, " | ")
 										}
 									case *ast.CallExpr:
 										if strings.HasPrefix(c12Norm(src(m.Fun)), "strconv.") {
@@ -400,6 +411,7 @@ func init() {
 		fmt.Fprintf(&b, "def c12_numberParse : String := %s\n", leanStr(numberParse))
 		fmt.Fprintf(&b, "def c12_numberReturn : String := %s\n", leanStr(numberRet))
 		fmt.Fprintf(&b, "def c12_fragmentLoop : String := %s\n", leanStr(loopHdr))
+		fmt.Fprintf(&b, "def c12_fragmentGuards : List String := %s\n", c12Strs(guards))
 
 		// ---- renderableBytesRE, LexerNamePat / identRE
 		pat := "<missing>"
